@@ -453,7 +453,7 @@ class Run(object):
         os.makedirs(os.path.join(VERIF, 'evidence'), exist_ok=True)
         with open(os.path.join(VERIF, 'evidence', prop.ID + '.json'), 'w') as f:
             json.dump(ev, f, indent=1, sort_keys=True, default=repr)
-        kfs = {f['id']: f for f in load_known_findings()}
+        kfs = {f['id']: f for f in load_known_findings() if f['property'] == prop.ID}
         for kid in sorted(self.known_hits):
             print('KNOWN-FINDING: property=%s %s' % (prop.ID, kfs[kid]['what_fails']))
         for path, nofail in self.violations:
